@@ -769,6 +769,11 @@ func (p *Parser) advance() {
 	p.currentPos++
 	if p.currentPos < len(p.tokens) {
 		p.currentToken = p.tokens[p.currentPos]
+	} else if p.currentPos > len(p.tokens) {
+		// More than one step past the end: the caller's slice has no EOF marker and a
+		// loop keeps re-reading its last token ("SELECT CASE *" spins in the operator
+		// loop forever). Read as end of input from here on so that every loop ends.
+		p.currentToken = token.Token{Type: models.TokenTypeEOF}
 	}
 }
 
